@@ -663,6 +663,12 @@ def corpus():
     out.append(("tag-471", "C06", [S(mk(0, 1, 100, [["t", "v" * 471]]))]))
     out.append(("tag-600-replaceable", "C06", [S(mk(0, R, 100, [])), S(mk(0, R, 200, [["t", "v" * 600]]))]))
     out.append(("delete-malformed-acked", "C06", [S(mk(0, 5, 200, [["e", "nothex"]]))]))
+    # a deletion that references an own earlier deletion as well as older notes: all of them go (NIP-09 gives a deletion of a deletion no
+    # special effect; whatever is done about it, the notes referenced next to it are removed)
+    o1, o2 = mk(0, 1, 100, [["t", "keep?"]], content="older note 1"), mk(0, 1, 110, [], content="older note 2")
+    d1 = mk(0, 5, 150, [["e", "%064x" % 5]], content="earlier deletion")
+    out.append(("delete-references-deletion", "C08", [S(o1), S(o2), S(d1), S(mk(0, 5, 300, [["e", d1["id"]], ["e", o1["id"]], ["e", o2["id"]]], content="second deletion"))]))
+    out.append(("delete-references-deletion-last", "C08", [S(o1), S(d1), S(o2), S(mk(0, 5, 300, [["e", o2["id"]], ["e", o1["id"]], ["e", d1["id"]]], content="second deletion b"))]))
     out.append(("created-0-unsigned-mode", "C06", [S(mk(0, 1, 0, []), signed=False)]))
     # ---- C10
     old = mk(0, R, 100, [["t", "x"]])
